@@ -49,9 +49,18 @@ func TestVerifC08(t *testing.T) {
 			out.Emit(vhsReplay("c08", ops, wga, nil, true, -1, 0, true))
 		}
 	}
-	nhist := 120
+	// known finding (fixes/C08-xattr-clone-unregistered.md): the clone of an xattr fid is not in the path tree
+	{
+		at := func(c, f int, names ...int) vhsOp { return vhsOp{K: "attach", A: []int{c, f}, Names: names} }
+		wk := func(c, f, nf int, names ...int) vhsOp { return vhsOp{K: "walk", A: []int{c, f, nf}, Names: names} }
+		o := func(k string, a ...int) vhsOp { return vhsOp{K: k, A: a} }
+		ops := []vhsOp{at(0, 0), o("mk", 0, 0, 0, 1), wk(0, 0, 1, 1), o("xattrwalk", 0, 1, 2), wk(0, 2, 3), o("getattr", 0, 3),
+			o("renameat", 0, 0, 1, 0, 2), o("getattr", 0, 1), o("getattr", 0, 2), o("getattr", 0, 3)}
+		out.Emit(vhsReplay("c08-xattr-clone", ops, true, nil, false, -1, 0, true))
+	}
+	nhist := 100
 	if thorough {
-		nhist = 1500
+		nhist = 800
 	}
 	for i := 0; i < nhist; i++ {
 		wga := r.Intn(2) == 0
